@@ -131,7 +131,7 @@ def _case(draw, tier):
         # how the run is interrupted: process death or Ctrl-C (the library's
         # own handlers run before the process exits)
         c["exc"] = draw(st.sampled_from(["kill", "kill", "ctrlc"]))
-    cfg = dict(idspace=(ncr + 2) * nvar * (rep_max + 1) + 4,
+    cfg = dict(idspace=(ncr + 3) * nvar * (rep_max + 1) + 4,
                unpacked=unpacked, container={}, fixed=[["bias", 1.5],
                                                        ["mode", "x"]],
                rep_max=rep_max, stop=stop, skips=skips,
@@ -139,7 +139,8 @@ def _case(draw, tier):
                ext=draw(st.sampled_from(["", "", ".json"])),
                delete_partial=draw(st.booleans()), clock=clock)
     final = draw(st.sampled_from(["same", "same", "same", "extend",
-                                  "guard_fixed", "guard_unpacked"]))
+                                  "shrink_then_same", "guard_fixed",
+                                  "guard_unpacked"]))
     if final == "guard_unpacked" and not unpacked:
         final = "guard_fixed"
     return dict(part="crash", cfg=cfg, crashes=crashes, final=final)
@@ -421,6 +422,27 @@ def _run_scenario(case, ctx, tmp, real_exit_first=False):
                                     tags)
             return tags, fired_any, fired_any
 
+        if final == "shrink_then_same":
+            # a complete run with a LOWER rep_max in between (rep_max is not
+            # part of the parameters that must match): what it reports and
+            # saves must stay consistent with what the files contain
+            cfg_low = dict(cfg, rep_max=max(1, cfg["rep_max"] // 2))
+            runner = H.make_runner(env, cfg_low)
+            runner.simulate()
+            reps_low = list(runner.runned_reps)
+            for v in range(nvar):
+                counted = H.digits4(runner.results["ids"][v].get_result())
+                if any(m != 1 for m in counted.values()) or \
+                        reps_low[v] != len(counted):
+                    raise Violation("rep_count", "run with lower rep_max: "
+                                    "variation %d reports %r repetitions but "
+                                    "its result holds %r" %
+                                    (v, reps_low[v], counted), tags)
+            del runner
+            env.run_no += 1
+            inj.new_run(None)
+            D = _durable_ids(inj, paths, tags, "after the run with lower "
+                             "rep_max")
         rep_max2 = cfg["rep_max"]
         cfgf = cfg
         if final == "extend":
@@ -439,7 +461,7 @@ def _run_scenario(case, ctx, tmp, real_exit_first=False):
         reps = list(runner.runned_reps)
         for v in range(nvar):
             want = _R(cfg, v, rep_max2)
-            if final == "extend" and v in D:
+            if v in D:
                 want = max(want, len(D[v]))
             counted = H.digits4(res["ids"][v].get_result())
             twice = dict((g, m) for g, m in counted.items() if m != 1)
